@@ -69,7 +69,6 @@ impl Error for InsufficientBufferSize {}
 
 /// General error type for conversion errors.
 ///
-#[cfg_attr(kani, repr(u8))] // verification hook: explicit tag instead of a niche, no effect on safe code
 #[derive(Debug, Clone)]
 pub enum ConversionError {
     /// See [InvalidValue].
@@ -187,7 +186,6 @@ impl Error for InvalidPropertyId {}
 
 /// General error type for property errors.
 ///
-#[cfg_attr(kani, repr(u8))] // verification hook: explicit tag instead of a niche, no effect on safe code
 #[allow(missing_docs)]
 #[derive(Debug, Clone)]
 pub enum PropertyError {
@@ -289,7 +287,6 @@ impl Error for MandatoryPropertyMissing {}
 
 /// General error type for the packet codec.
 ///
-#[cfg_attr(kani, repr(u8))] // verification hook: explicit tag instead of a niche, no effect on safe code
 #[allow(missing_docs)]
 #[derive(Debug, Clone)]
 pub enum CodecError {
